@@ -1102,7 +1102,7 @@ def work(rep, args):
     _env()
     for d in oscore_env.tree_deviations():
         rep.add_drift("tree under test deviates from the RFC 8613 Appendix C vectors: " + d)
-    nsim = 100 if quick else 2500
+    nsim = 100 if quick else 1500
     nsamples = 150 if quick else 3000
     nsess_sim = 150 if quick else 2500
     nsess_rand = 100 if quick else 3000
